@@ -46,7 +46,7 @@ def gen_case(rng, tier, idx):
     if idx % 8 == 7:
         # maps built indirectly: decoders, bridges, builders, peripherals (invariant walker installed on the class)
         return {"kind": "hier", "root": rng.choice(["wb", "wb", "csr"]), "max_space": rng.choice([8, 10, 12, 14])}
-    root_aw = rng.choice([1, 2, 3, 4, 4, 5, 6, 8, 8, 10, 12, 16, 24, 32])
+    root_aw = rng.choice([1, 2, 3, 4, 4, 5, 6, 8, 8, 10, 12, 16, 24, 32, 53, 54, 64, 64, 100])
     nmaps = rng.randint(2, 5)
     maps = []
     for k in range(nmaps):
@@ -155,7 +155,8 @@ def run_case(case):
     def pick_addr(t):
         mm = models[t]
         top = 1 << mm.aw
-        cands = [0, top, top - 1, rng.randrange(top + 2)]
+        cands = [0, top, top - 1, rng.randrange(top + 2), max(0, top - rng.randrange(1, 1 << 12)),
+                 max(0, top - (rng.randrange(1, 1 << 20) | 1))]
         for it in mm.items:
             cands += [it["start"], it["end"], it["start"] - 1, it["end"] - 1, it["end"] + 1,
                       max(0, it["start"] - rng.choice([1, 2, 4, 8]))]
@@ -224,8 +225,8 @@ def run_case(case):
         if op == "res":
             r = new_res()
             top = 1 << mm.aw
-            size = rng.choice([0, 1, 1, 2, 3, 4, 5, 8, top, top + 1, rng.randrange(top + 2),
-                               max(1, top // rng.choice([2, 4, 8]))])
+            size = rng.choice([0, 1, 1, 2, 3, 4, 5, 8, 3, 7, top, top + 1, rng.randrange(top + 2),
+                               max(1, top // rng.choice([2, 4, 8])), rng.randrange(1, 1 << 10)])
             if rng.random() < 0.03:
                 size = rng.choice([-1, "4", 2.0, None])
             addr = pick_addr(t) if rng.random() < 0.45 else None
